@@ -478,6 +478,10 @@ class StateMachine(object):  # pylint: disable=too-many-public-methods
         """Send A-ABORT PDU (service-user source) and start (or restart)
         ARTIM timer.
         """
+        if getattr(self.primitive, 'pdu_type', None) != pdu.AAbortPDU.pdu_type:
+            # Not triggered by an A-ABORT request primitive (unexpected or invalid PDU while
+            # awaiting A-ASSOCIATE-RQ): current primitive is the received PDU (or nothing).
+            self.primitive = pdu.AAbortPDU(source=0, reason_diag=0)
         self.dul_socket.sendall(self.primitive.encode())
         self.timer.restart()
         return States.STA_13
@@ -526,6 +530,7 @@ class StateMachine(object):  # pylint: disable=too-many-public-methods
 
     def aa_7(self):
         """Send A-ABORT PDU."""
+        self.primitive = pdu.AAbortPDU(source=2, reason_diag=2)
         self.dul_socket.sendall(self.primitive.encode())
         return States.STA_13
 
